@@ -794,6 +794,26 @@ inline std::string NewStderr(std::size_t max) {
 #endif
 
 // Executes the cell body once (pass 0) or again (pass 1) with identical random choices.
+// Properties, besides C03, whose own statement promises release and that the lifecycle oracles (tracked objects alive at
+// quiescence, LeakSanitizer, operator new/delete balance) therefore also decide in the cells that exercise them:
+// C09/C10 "every input is consumed and released exactly once", C16 "consumed ones are released exactly once",
+// C13 "its frame, including live locals, is destroyed exactly once".
+inline std::string LifecycleProps(const Cell& cell) {
+  static const struct {
+    const char* family;
+    const char* prefix;
+    const char* prop;
+  } kRules[] = {{"when", "all/", ",C09"}, {"when", "join/", ",C09"}, {"when", "any/", ",C10"},
+                {"wg", "waitgroup/", ",C16"},  {"coro", "", ",C13"}};
+  std::string props = "C03";
+  for (auto& r : kRules) {
+    if (std::strcmp(g_cfg.family, r.family) == 0 && std::strncmp(cell.name, r.prefix, std::strlen(r.prefix)) == 0) {
+      props += r.prop;
+    }
+  }
+  return props;
+}
+
 inline CaseResult Execute(const Cell& cell, int cell_id, u64 idx, int pass, bool want_sample) {
   Ctx ctx;
   ctx.cell = &cell;
@@ -879,7 +899,7 @@ inline CaseResult Execute(const Cell& cell, int cell_id, u64 idx, int pass, bool
   res.tracked_delta = g_tracked.live.load(kRlx) - live0;
   long bad = g_tracked.bad.load(kRlx) - bad0;
   ctx.Check(bad == 0, "canary", "", "%ld tracked objects seen torn, destroyed twice or used after destruction", bad);
-  ctx.Check(res.tracked_delta == 0, "tracked-leak", "C03",
+  ctx.Check(res.tracked_delta == 0, "tracked-leak", LifecycleProps(cell).c_str(),
             "tracked payload/functor objects still alive at quiescence: %ld", res.tracked_delta);
 #if VF_TSAN
   u64 tsan = g_tsan_count.load(kRlx) - tsan0;
@@ -1007,7 +1027,7 @@ inline void RunCase(const Cell& cell, int cell_id, u64 idx) {
       ctx.idx = idx;
       ctx.rng.s = CaseSeed(cell, idx);
       DeriveParams(ctx);
-      ctx.Fail("alloc-balance", "C03", "operator new/delete imbalance at quiescence: %ld (repeat run: %ld)",
+      ctx.Fail("alloc-balance", LifecycleProps(cell).c_str(), "operator new/delete imbalance at quiescence: %ld (repeat run: %ld)",
                r.alloc_delta, r2.alloc_delta);
     }
   }
@@ -1132,7 +1152,7 @@ inline void ChildBatch(const Batch& b, int slot, const char* errpath) {
     ctx.cell = &cell;
     ctx.cell_id = b.cell;
     ctx.idx = b.begin;
-    ctx.Fail("lsan-leak", "C03", "LeakSanitizer reports leaked heap blocks after cases [%llu,%llu)",
+    ctx.Fail("lsan-leak", LifecycleProps(cell).c_str(), "LeakSanitizer reports leaked heap blocks after cases [%llu,%llu)",
              (unsigned long long)b.begin, (unsigned long long)b.end);
   }
 #endif
@@ -1533,7 +1553,7 @@ inline int Main(int argc, char** argv, const char* family) {
       g_shm->crashes.fetch_add(1, kRlx);
       std::string kind = ClassifyCrash(err, status);
       if (phase != 1 && kind == "lsan-leak") {
-        RecordSupervisorViol(cell, r.b.begin, "lsan-leak", "C03", "leak check at batch end\n" + err.substr(0, 900));
+        RecordSupervisorViol(cell, r.b.begin, "lsan-leak", LifecycleProps(cell).c_str(), "leak check at batch end\n" + err.substr(0, 900));
         unlink(r.err.c_str());
         continue;  // batch itself completed
       }
